@@ -182,7 +182,13 @@ func LoadRules(rules []*Rule) (bool, error) {
 
 // isLoadable reports whether onRuleUpdate would accept the rule.
 func isLoadable(rule *Rule) bool {
-	return IsValidRule(rule) == nil && circuitbreaker.IsValidRule(rule.Rule) == nil
+	return IsValidRule(rule) == nil && circuitbreaker.IsValidRule(rule.Rule) == nil && canBuildBreaker(rule)
+}
+
+// canBuildBreaker reports whether a node breaker can be generated for the rule at all. A rule of a
+// strategy without generator would be accepted and reported, but could never eject anything.
+func canBuildBreaker(rule *Rule) bool {
+	return len(circuitbreaker.BuildResourceCircuitBreaker(rule.Resource, []*circuitbreaker.Rule{rule.Rule}, nil)) > 0
 }
 
 // LoadRuleOfResource loads the given resource's outlier ejection rule to the rule manager, while previous resource's rule will be replaced.
@@ -229,6 +235,13 @@ func onResourceRuleUpdate(res string, rule *Rule) (err error) {
 	err = IsValidRule(rule)
 	if err == nil {
 		err = circuitbreaker.IsValidRule(circuitRule)
+	}
+	if err == nil && rule.Resource != res {
+		// as in the other modules: a rule that names another resource is not a rule of this one
+		err = fmt.Errorf("unmatched resource name expect: %s, actual: %s", res, rule.Resource)
+	}
+	if err == nil && !canBuildBreaker(rule) {
+		err = errors.New("no circuit breaker can be generated for the rule's strategy")
 	}
 	if err != nil {
 		// Like every other rule manager: an invalid rule is ignored, and the load still replaces
@@ -289,6 +302,10 @@ func onRuleUpdate(rulesMap map[string]*Rule) (err error) {
 		}
 		if err = circuitbreaker.IsValidRule(circuitRule); err != nil {
 			logging.Warn("[Outlier onRuleUpdate] Ignoring invalid rule when loading new rules", "rule", rule, "err", err.Error())
+			continue
+		}
+		if !canBuildBreaker(rule) {
+			logging.Warn("[Outlier onRuleUpdate] Ignoring rule of a strategy no circuit breaker can be generated for", "rule", rule)
 			continue
 		}
 		validCircuitRulesMap[resource] = circuitRule
